@@ -299,6 +299,18 @@ func TestVerifC05(t *testing.T) {
 	}
 	if thorough {
 		scns = append(scns, three...)
+		for _, k := range kinds {
+			vs := c05Variants(k, "s1")
+			init := []storage.VerifC05Init{{Kind: k, ID: "s1", Val: "clientA"}}
+			if k == "s2s" || k == "jti" {
+				init = nil
+			}
+			scns = append(scns, c05Scn(k+"-4", "mem", init, vs[0], vs[rng.Intn(len(vs))], vs[0], vs[len(vs)-1]))
+			scns = append(scns, c05Scn(k+"-3-multinode", "redis-multinode", init, vs[0], vs[0], vs[rng.Intn(len(vs))]))
+		}
+		codeInit := []storage.VerifC05Init{{Kind: "code", ID: "s1", Val: "clientA"}}
+		scns = append(scns, c05Scn("mixed-3", "mem", codeInit, c05Variants("code", "s1")[0], c05Variants("code", "s1")[2], c05Variants("s2s", "s1")[0]))
+		scns = append(scns, c05Scn("mixed-4", "redis", codeInit, c05Variants("code", "s1")[0], c05Variants("jti", "s1")[0], c05Variants("jti", "s1")[0], c05Variants("code", "s1")[1]))
 	} else {
 		scns = append(scns, three[rng.Intn(len(three))])
 	}
